@@ -72,6 +72,7 @@ func runC05(c *core.Ctx) {
 	checkVariableTables(c, lp, lintScope)
 	checkOperatorCells(c)
 	checkMultiScope(c)
+	checkLiteralPredicate(c)
 }
 
 // ---------- helpers over composite literals
@@ -1062,4 +1063,76 @@ func checkMultiScope(c *core.Ctx) {
 		}
 	}
 	c.Floor("ref.multiscope", 4)
+}
+
+// checkLiteralPredicate (ref.litpred): the operator tables of the linter have two halves, one for a literal right-hand
+// side and one for a variable, and the simulator draws the same line (a literal RTIME cannot be added to an INTEGER, a
+// variable can). Which half applies is decided by a predicate on the value expression, handed to the lint*Operator
+// functions as their last argument. All call sites must use the same predicate: two predicates that disagree on one
+// kind of literal (isTypeLiteral does not know RTIME) make the linter admit in one operator what it rejects in its
+// sibling and what the simulator rejects in both.
+func checkLiteralPredicate(c *core.Ctx) {
+	prog := c.Prog
+	type site struct {
+		call *ssa.Call
+		pred string
+	}
+	var sites []site
+	count := map[string]int{}
+	for _, fn := range prog.ModuleFuncs("linter") {
+		if fn.Pkg == nil || fn.Pkg.Pkg.Path() != core.ModPath+"/linter" {
+			continue
+		}
+		for _, b := range fn.Blocks {
+			for _, in := range b.Instrs {
+				call, ok := in.(*ssa.Call)
+				if !ok {
+					continue
+				}
+				cal := call.Common().StaticCallee()
+				if cal == nil || !strings.HasPrefix(cal.Name(), "lint") || !strings.HasSuffix(cal.Name(), "Operator") || len(cal.Params) == 0 {
+					continue
+				}
+				last := cal.Params[len(cal.Params)-1]
+				if bt, isB := last.Type().Underlying().(*types.Basic); !isB || bt.Kind() != types.Bool {
+					continue
+				}
+				arg := call.Common().Args[len(call.Common().Args)-1]
+				pred := ""
+				for x := range core.BackSliceLocal(arg) {
+					if pc, isCall := x.(*ssa.Call); isCall {
+						if pf := pc.Common().StaticCallee(); pf != nil && pf.Pkg != nil && pf.Pkg.Pkg.Path() == core.ModPath+"/linter" {
+							pred = pf.Name()
+						}
+					}
+				}
+				if pred == "" {
+					continue
+				}
+				sites = append(sites, site{call, pred})
+				count[pred]++
+			}
+		}
+	}
+	major := ""
+	for p, n := range count {
+		if n > count[major] || (n == count[major] && p < major) {
+			major = p
+		}
+	}
+	ord := map[string]int{}
+	for _, s := range sites {
+		fn := s.call.Parent()
+		key := fmt.Sprintf("%s|%s", core.FnName(fn), s.call.Common().StaticCallee().Name())
+		ord[key]++
+		if ord[key] > 1 {
+			key = fmt.Sprintf("%s#%d", key, ord[key])
+		}
+		if s.pred == major {
+			c.Discharge("ref.litpred", key, s.call.Pos(), "literal / variable decided by "+major)
+		} else {
+			c.Report("ref.litpred", key, s.call.Pos(), fmt.Sprintf("%s decides literal / variable with %s while the %d sibling call sites use %s: the two predicates disagree on some literal kinds, so this operator's table is entered in the wrong half and the linter admits an assignment the simulator rejects", core.FnName(fn), s.pred, count[major], major))
+		}
+	}
+	c.Floor("ref.litpred", 4)
 }
